@@ -6,7 +6,10 @@ cd /verif
 git -C /repo diff --quiet || { echo "/repo not clean"; exit 2; }
 git -C /repo apply "$src/patch.diff" || { echo "patch does not apply"; exit 2; }
 for c in "$@"; do
+  # the evidence file of the unchanged tree must survive: a run against a seeded change rewrites evidence/<id>.json
+  cp -p evidence/$c.json /tmp/.eval_seed_$c.json 2>/dev/null
   timeout 3600 ./vf check $c --tier ${TIER:-quick} > "$src/check_$c.out" 2>&1; echo "$c exit=$?" | tee -a "$src/eval.log"
   grep -a "^VIOLATION\|^OK\|^BROKEN" "$src/check_$c.out" | head -3 | cut -c1-200 | tee -a "$src/eval.log"
+  [ -f /tmp/.eval_seed_$c.json ] && mv /tmp/.eval_seed_$c.json evidence/$c.json
 done
 git -C /repo checkout -- .
